@@ -53,15 +53,16 @@ class AbstractVisibilities(Structure, ABC):
                     .ravel()
                 )
 
-        self.ordered_1d = np.concatenate(
-            (np.real(visibilities), np.imag(visibilities)), axis=0
-        )
-
         super().__init__(array=visibilities)
 
-    def __array_finalize__(self, obj):
-        if hasattr(obj, "ordered_1d"):
-            self.ordered_1d = obj.ordered_1d
+    @property
+    def ordered_1d(self) -> np.ndarray:
+        """
+        The real parts of all visibilities followed by their imaginary parts, as a 1D real array of shape
+        [2*total_visibilities]. Computed from the values the object holds, so that objects made by arithmetic or
+        slicing report their own values.
+        """
+        return np.concatenate((np.real(self._array), np.imag(self._array)), axis=0)
 
     @property
     def slim(self) -> "AbstractVisibilities":
@@ -257,20 +258,14 @@ class VisibilitiesNoiseMap(Visibilities):
                     .ravel()
                 )
 
-        self.ordered_1d = np.concatenate(
-            (np.real(visibilities), np.imag(visibilities)), axis=0
-        )
         super().__init__(visibilities=visibilities)
 
+    @property
+    def weight_list_ordered_1d(self) -> np.ndarray:
+        """
+        The weights 1 / noise**2 of the real parts followed by those of the imaginary parts, computed from the values
+        the object holds.
+        """
         weight_list = 1.0 / self.in_array**2.0
 
-        self.weight_list_ordered_1d = np.concatenate(
-            (weight_list[:, 0], weight_list[:, 1]), axis=0
-        )
-
-    def __array_finalize__(self, obj):
-        if hasattr(obj, "ordered_1d"):
-            self.ordered_1d = obj.ordered_1d
-
-        if hasattr(obj, "weight_list_ordered_1d"):
-            self.weight_list_ordered_1d = obj.weight_list_ordered_1d
+        return np.concatenate((weight_list[:, 0], weight_list[:, 1]), axis=0)
